@@ -195,14 +195,15 @@ func pureObserve(c *restful.Container, k pureKey, rid string) (pureProj, bool) {
 	}()
 	p.St = rec.Code
 	names := []string{}
-	for n := range rec.Header() {
+	wh := wireHeader(rec)
+	for n := range wh {
 		names = append(names, n)
 	}
 	sort.Strings(names)
 	for _, n := range names {
-		p.Hdr = append(p.Hdr, []interface{}{n, rec.Header()[n]})
+		p.Hdr = append(p.Hdr, []interface{}{n, wh[n]})
 	}
-	ok, decoded := decodeBody(rec.Header().Get("Content-Encoding"), rec.Body.Bytes())
+	ok, decoded := decodeBody(wh.Get("Content-Encoding"), rec.Body.Bytes())
 	iso := true
 	if !ok {
 		p.Body = "UNDECODABLE"
